@@ -76,6 +76,9 @@ func (sp *c07Spec) build(state string) (rule.Repository, rule.SetProcessor) {
 
 func c07Apply(proc rule.SetProcessor, w c07Write) error {
 	rs := vRuleSet(w.src, w.set)
+	if w.kind == "delete" {
+		rs = vDeletion(1, w.src, nil) // as file_system and cloud_blob report a removal
+	}
 	switch w.kind {
 	case "create":
 		return proc.OnCreated(rs)
